@@ -79,6 +79,8 @@ class Stats:
         self.failures = []  # (case_idx, choices, key, msg) -- one per distinct key
         self._fkeys = set()
         self.divergences = 0
+        self.divergences_recovered = 0
+        self.redo = []  # (case_idx, parent prefix, bound, why): parents whose recorded trace could not be replayed
         self.errors = []
         self.choice_points = 0
         self.max_menu = 0
@@ -100,6 +102,7 @@ class Stats:
                 self._fkeys.add(f[2])
                 self.failures.append(f)
         self.divergences += o.divergences
+        self.divergences_recovered += o.divergences_recovered
         self.errors.extend(o.errors[:5])
         self.choice_points += o.choice_points
         self.max_menu = max(self.max_menu, o.max_menu)
@@ -144,8 +147,14 @@ def _subtree(task):
             break
         pre = stack.pop()
         done += 1
+        def attempt():
+            o = _MODULE.run_case(params, pre)
+            if pre[1] and max(pre[1]) >= len(o.trace):
+                raise Divergence(f"short trace {len(o.trace)}")
+            return o
+
         try:
-            out = with_wall_limit(lambda: _MODULE.run_case(params, pre), WALL_LIMIT)
+            out = with_wall_limit(attempt, WALL_LIMIT)
         except WallTimeout:
             key = f"{getattr(_MODULE, 'PROP', '?')}|case={json.dumps(params, sort_keys=True, default=str)[:300]}|spin"
             if key not in st._fkeys:
@@ -156,9 +165,35 @@ def _subtree(task):
             st.executions += 1
             continue
         except Divergence as e:
-            st.divergences += 1
-            st.errors.append(f"divergence case={case_idx} prefix={_dense(pre)[-12:]}: {e}")
-            continue
+            # A replay that leaves the recorded menu means one of the two executions (the parent that recorded the
+            # prefix, or this replay) was not repeatable.  Replay again; if it keeps diverging the PARENT's trace is
+            # the odd one: hand the parent prefix back to the master, which re-explores it once (its children are
+            # re-derived from a fresh execution).  Only a divergence that survives that is reported.
+            again = None
+            for _ in range(2):
+                try:
+                    again = with_wall_limit(attempt, WALL_LIMIT)
+                    break
+                except Divergence:
+                    continue
+                except BaseException:  # noqa
+                    break
+            if again is None:
+                plen, nz = pre
+                devs = {k: v for k, v in nz.items() if k >= 0}
+                if devs:
+                    # key -1 of a prefix carries its generation: 0 = derived from an original trace, 1 = derived from a
+                    # re-explored parent (a divergence there is persistent)
+                    last = max(devs)
+                    pnz = {k: v for k, v in devs.items() if k != last}
+                    st.redo.append((case_idx, ((max(pnz) + 1) if pnz else 0, pnz), bound, nz.get(-1, 0),
+                                    f"{_dense(pre)[-12:]}: {e}"))
+                else:
+                    st.divergences += 1
+                    st.errors.append(f"divergence case={case_idx} prefix={_dense(pre)[-12:]}: {e}")
+                continue
+            st.divergences_recovered += 1
+            out = again
         except KeyboardInterrupt:
             raise
         except BaseException:  # noqa -- a BaseException escaping here would kill the pool worker and lose the task
@@ -166,10 +201,6 @@ def _subtree(task):
             continue
         trace = out.trace
         plen, nz = pre
-        if nz and max(nz) >= len(trace):
-            st.divergences += 1
-            st.errors.append(f"divergence (short trace {len(trace)}) case={case_idx} prefix={_dense(pre)[-12:]}")
-            continue
         ndev = sum(1 for _, c, f in trace if c and not f)
         st.executions += 1
         st.levels[ndev] = st.levels.get(ndev, 0) + 1
@@ -210,6 +241,9 @@ class Explorer:
         self.pool = None
 
     def __enter__(self):
+        from mc import runner
+
+        runner.scratch_dir()  # created before the fork: workers use sub-directories of it, removed when the check exits
         ctx = mp.get_context("fork")
         self.pool = ctx.Pool(self.workers, initializer=_init_worker, initargs=(self.module_name, self.cases))
         return self
@@ -238,6 +272,7 @@ class Explorer:
         inflight = 0
         ok = True
         stalls = 0
+        redone = set()
         maxfly = self.workers * 3
         while todo or inflight:
             while todo and inflight < maxfly:
@@ -263,6 +298,16 @@ class Explorer:
                 continue
             st, leftover, comp = res
             total.merge(st)
+            for ci, ppre, b, gen, why in st.redo:
+                k = (ci, ppre[0], tuple(sorted(ppre[1].items())))
+                if gen >= 1:
+                    # children re-derived from a fresh execution of the parent diverge again: persistent nondeterminism
+                    total.divergences += 1
+                    total.errors.append(f"divergence case={ci} prefix={why}")
+                elif k not in redone:
+                    redone.add(k)
+                    total.divergences_recovered += 1
+                    todo.append((ci, (ppre[0], {**ppre[1], -1: 1}), b))
             ok &= comp
             if comp:
                 todo.extend(leftover)
